@@ -122,6 +122,7 @@ def run_family(prop, tier, propfile, components, oracle, n_quick, n_thorough, ru
     dist['zero-sum-geo'] += 'zero_sum_geo' in case
     dist['volume-drift-with-short-window'] += 'drift' in case
     dist['integer-response-column'] += bool(case.get('int_response'))
+    dist['geo-without-rows-on-the-first-dates'] += bool(case.get('missing_head'))
     dist['non-default sig_level / power_level / flevel / rho_max'] += bool(case.get('non_default_statistics'))
     dist['window-bound-between-n-and-2n'] += bool(case.get('window_bound_above_history'))
     dist['integer-parameters-as-floats'] += bool(case.get('float_valued_integers'))
